@@ -236,7 +236,9 @@ static void static_all(mon::Rng& rng, tl<Rs...>) { (static_from<Rs>(rng, arith{}
 
 // ------------------------------------------------------------ pointer casts
 enum CastK { K_REINT, K_CONST, K_STATIC };
-template<CastK K, typename L, typename R>
+// Cell = false: only the tainted source is driven (pointer CELLS with a volatile-qualified pointee are not programs on a
+// foreign-ABI backend, on the pinned tree either)
+template<CastK K, typename L, typename R, bool Cell = true>
 static void ptr_cast_pair(mon::Rng& rng)
 {
   const char* kind = K == K_REINT ? "reinterpret-cast" : (K == K_CONST ? "const-cast" : "static-cast-ptr");
@@ -252,18 +254,28 @@ static void ptr_cast_pair(mon::Rng& rng)
     if (!null && reinterpret_cast<uintptr_t>(src.UNSAFE_unverified()) != want) { report(kind, "setup-cast-moved-pointer", "reinterpret from char*"); continue; }
     // from tainted
     tainted<L, S> r1 = nullptr, r2 = nullptr;
-    *cellpp = src;
-    if constexpr (K == K_REINT) { r1 = sandbox_reinterpret_cast<L>(src); r2 = sandbox_reinterpret_cast<L>(*cellpp); }
-    else if constexpr (K == K_CONST) { r1 = sandbox_const_cast<L>(src); r2 = sandbox_const_cast<L>(*cellpp); }
-    else { r1 = sandbox_static_cast<L>(src); r2 = sandbox_static_cast<L>(*cellpp); }
+    if constexpr (Cell) {
+      *cellpp = src;
+      if constexpr (K == K_REINT) { r1 = sandbox_reinterpret_cast<L>(src); r2 = sandbox_reinterpret_cast<L>(*cellpp); }
+      else if constexpr (K == K_CONST) { r1 = sandbox_const_cast<L>(src); r2 = sandbox_const_cast<L>(*cellpp); }
+      else { r1 = sandbox_static_cast<L>(src); r2 = sandbox_static_cast<L>(*cellpp); }
+    } else {
+      (void)cellpp;
+      if constexpr (K == K_REINT) r1 = sandbox_reinterpret_cast<L>(src);
+      else if constexpr (K == K_CONST) r1 = sandbox_const_cast<L>(src);
+      else r1 = sandbox_static_cast<L>(src);
+      r2 = r1;
+    }
     mon::evals(2);
     uintptr_t g1 = reinterpret_cast<uintptr_t>(r1.UNSAFE_unverified()), g2 = reinterpret_cast<uintptr_t>(r2.UNSAFE_unverified());
     if (g1 != want || g2 != want)
       report(kind, "designated-address-changed", mon::fmt("source designates base+%llu (null=%d); cast from tainted designates %p, from tainted_volatile %p, base %p", (unsigned long long)off, null, (void*)g1, (void*)g2, (void*)Wd::base(*SB)));
     else n_cast_ok += 2;
     // the cell itself must be unchanged by the cast
-    tainted<R, S> again = *cellpp;
-    if (again.UNSAFE_unverified() != src.UNSAFE_unverified()) report(kind, "source-modified", "sandbox cell changed by a cast");
+    if constexpr (Cell) {
+      tainted<R, S> again = *cellpp;
+      if (again.UNSAFE_unverified() != src.UNSAFE_unverified()) report(kind, "source-modified", "sandbox cell changed by a cast");
+    }
   }
   mon::distinct(mon::mix(std::hash<std::string>()(kind), mon::mix(std::hash<std::string>()(typeid(L).name()), std::hash<std::string>()(typeid(R).name()))));
 }
@@ -379,6 +391,13 @@ int main(int argc, char** argv)
     ptr_cast_pair<K_STATIC, void*, int*>(rng);
     ptr_cast_pair<K_STATIC, int*, void*>(rng);
     ptr_cast_pair<K_STATIC, const void*, const long*>(rng);
+    // volatile-qualified pointees (programs of the pinned tree)
+    ptr_cast_pair<K_STATIC, volatile void*, volatile int*, false>(rng);
+    ptr_cast_pair<K_STATIC, volatile int*, int*, false>(rng);
+    ptr_cast_pair<K_STATIC, const volatile void*, const volatile long*, false>(rng);
+    ptr_cast_pair<K_REINT, volatile char*, volatile int*, false>(rng);
+    ptr_cast_pair<K_CONST, int*, volatile int*, false>(rng);
+    ptr_cast_pair<K_CONST, volatile int*, int*, false>(rng);
   }
 #else
   {
